@@ -102,3 +102,26 @@ Proof. vm_compute. reflexivity. Qed.
 Example C11_short_circuit_example :
   run 50 VNull (EBin OAnd (ETick 1 (EConst (CBool false))) (ETick 2 (EConst (CInt 7)))) = ([1%Z], Ok (VBool false)).
 Proof. vm_compute. reflexivity. Qed.
+
+(* ---- "... regardless of how many overloads are considered" -------------------------------------------------------
+   The resolution model (Model/Resolution.v: the loops of runner.choose_overload over any chain of layers and any
+   family of overloads; it is the model of C05/C06/C12 and is tied to the runner by their correspondence) logs the
+   evaluation of every argument.  Whatever the layers contain - any number of overloads, in any number of layers, with
+   any laziness signatures - the evaluation log of a call is: nothing, when no overload can be called with the syntax
+   used or the candidates disagree about laziness; otherwise the eager non-constant arguments of the call, positional
+   ones in call order and then the keyword ones - each AT MOST once, and exactly the ones the agreed signature marks
+   eager.  The number of candidates and the layer in which the winner is found do not occur in the right-hand side. *)
+From YV Require Model.Resolution Lemmas.ResolutionSpec.
+
+Theorem C11_once_whatever_overloads : forall (sub : Resolution.tag -> Resolution.tag -> bool) layers args pykw,
+  snd (Resolution.choose_overload sub layers args pykw) =
+  match ResolutionSpec.phase1 sub layers args pykw with
+  | None => []
+  | Some (pos, kw, sg) => ResolutionSpec.eager_ids (fst sg) pos ++ ResolutionSpec.eager_ids_kw (snd sg) kw
+  end.
+Proof. exact ResolutionSpec.eval_once. Qed.
+
+Theorem C11_once_each : forall pos kw (sg : list bool * list bool),
+  NoDup (flat_map ResolutionSpec.arg_ids pos ++ flat_map (fun kv => ResolutionSpec.arg_ids (snd kv)) kw) ->
+  NoDup (ResolutionSpec.eager_ids (fst sg) pos ++ ResolutionSpec.eager_ids_kw (snd sg) kw).
+Proof. exact ResolutionSpec.eval_once_nodup. Qed.
